@@ -61,7 +61,7 @@ func (u uAppender) AppendText(b []byte) ([]byte, error) {
 type uMarshalerTo struct{ ID int }
 
 func (u uMarshalerTo) MarshalJSONTo(e *jsontext.Encoder) error {
-	switch u.ID % 10 {
+	switch u.ID % 12 {
 	case 0:
 		return e.WriteToken(jsontext.Int(1))
 	case 1: // nothing
@@ -87,11 +87,26 @@ func (u uMarshalerTo) MarshalJSONTo(e *jsontext.Encoder) error {
 		return e.WriteValue(jsontext.Value(`{"k":[1,2]}`))
 	case 8:
 		return e.WriteValue(jsontext.Value(`[1,`))
-	default:
+	case 9:
 		e.WriteToken(jsontext.BeginArray)
 		jsonv2.MarshalEncode(e, map[string]int{"z": 1})
 		jsonv2.MarshalEncode(e, make(chan int)) // fails; error swallowed
 		return e.WriteToken(jsontext.EndArray)
+	case 10: // a nested marshal fails half way through an object; the user code finishes it by hand
+		jsonv2.MarshalEncode(e, struct {
+			A int
+			B chan int
+		}{A: 1})
+		e.WriteToken(jsontext.Null)
+		e.WriteToken(jsontext.String("A"))
+		e.WriteToken(jsontext.Int(2))
+		return e.WriteToken(jsontext.EndObject)
+	default: // the same with a map whose second value cannot be marshaled
+		jsonv2.MarshalEncode(e, map[string]any{"a": 1, "b": make(chan int)}, jsonv2.Deterministic(true))
+		e.WriteToken(jsontext.Null)
+		e.WriteToken(jsontext.String("a"))
+		e.WriteToken(jsontext.Int(2))
+		return e.WriteToken(jsontext.EndObject)
 	}
 }
 
@@ -228,8 +243,8 @@ func optsArshalOnly(o []jsonv2.Options) []jsonv2.Options { return nil }
 // ------------------------------------------------------------------ C02: Marshal output is valid JSON
 
 func c02Type(r *rand.Rand) *tdesc {
-	c := &typeCfg{maxDepth: 1 + r.IntN(4), maxFields: 1 + r.IntN(6), tags: true, anys: true, rawValues: true, times: r.IntN(3) == 0, floats: true,
-		mapKeys: []string{"string", "int", "uint8", "bool", "float64", "cat:text", "cat:appender", "any"}}
+	c := &typeCfg{maxDepth: 1 + r.IntN(4), maxFields: 1 + r.IntN(6), tags: true, anys: true, rawValues: true, times: r.IntN(3) == 0, floats: true, formats: r.IntN(3) == 0,
+		mapKeys: []string{"string", "int", "uint8", "bool", "float64", "cat:text", "cat:appender", "any", "ptr:slice", "ptr:string", "ptr:struct", "array:int", "struct"}}
 	t := genTypeDesc(r, c, 0)
 	sprinkleCatalog(r, t)
 	return t
@@ -307,9 +322,9 @@ func c02Exec(c *arshalCase) {
 	r := rand.New(rand.NewPCG(c.Seed[0], c.Seed[1]))
 	t := buildType(c02Type(r))
 	c.Type = truncate(t.String(), 300)
-	v := genGoValue(r, &valCfg{invalidUTF8: true, nonFinite: true, nils: true}, t, 0)
+	v := genGoValue(r, &valCfg{invalidUTF8: true, nonFinite: true, nils: true, weirdZones: true}, t, 0)
 	fillCatalogIDs(r, v, 0)
-	opts := c.Opts.options(r)
+	opts := append(c.Opts.options(r), jsonv2.ExperimentalSupportFormatTag(true))
 	if r.IntN(4) == 0 { // caller-supplied functions with arbitrary output
 		id := r.IntN(len(userBytes))
 		opts = append(opts, jsonv2.WithMarshalers(jsonv2.JoinMarshalers(
@@ -447,7 +462,7 @@ func descHas(t *tdesc, kinds ...string) bool {
 }
 
 func c04Type(r *rand.Rand) (*tdesc, bool) {
-	c := &typeCfg{maxDepth: 1 + r.IntN(5), maxFields: 1 + r.IntN(8), tags: r.IntN(2) == 0, anys: true, rawValues: r.IntN(3) == 0, times: true, floats: true,
+	c := &typeCfg{maxDepth: 1 + r.IntN(5), maxFields: 1 + r.IntN(8), tags: r.IntN(2) == 0, anys: true, rawValues: r.IntN(3) == 0, times: true, floats: true, formats: r.IntN(2) == 0,
 		mapKeys: []string{"string", "int", "int8", "uint64", "string"}}
 	t := genTypeDesc(r, c, 0)
 	omit := false
@@ -480,7 +495,8 @@ func c04Exec(c *arshalCase) {
 	t := buildType(td)
 	c.Type = truncate(t.String(), 300)
 	v := genGoValue(r, &valCfg{nils: true}, t, 0)
-	opts := c.Opts.options(r)
+	opts := append(c.Opts.options(r), jsonv2.ExperimentalSupportFormatTag(true))
+	hasFormat := strings.Contains(t.String(), "format:")
 	c.Omit = omit || c.Opts.Name == "omitzero" || c.Opts.Name == "legacy-omitempty" || c.Opts.Name == "v1"
 	out1, err1 := jsonv2.Marshal(v.Interface(), opts...)
 	c.Outs = append(c.Outs, okBytes("out1", out1, err1))
@@ -506,7 +522,7 @@ func c04Exec(c *arshalCase) {
 	c.Outs = append(c.Outs, okBytes("out3", out3, err5))
 	// Go equality of the decoded value with the original (nil and empty containers identified)
 	// [decoded == original, equality is meaningful for this type and option set]
-	meaningful := !c.Omit && !descHas(td, "any", "raw") && c.Opts.Name != "nilasnull"
+	meaningful := !c.Omit && !descHas(td, "any", "raw") && c.Opts.Name != "nilasnull" && !hasFormat
 	c.Flags = []bool{equalNorm(v, p2.Elem()), meaningful}
 }
 
@@ -685,6 +701,11 @@ func driveArshal(args map[string]string) error {
 						text = []byte(fmt.Sprintf(`{%q:[%q,%q],%q:{%q:%q}}`, a, b, a, b, a, b))
 					case 2:
 						text = mutate(r, text)
+					case 4: // few long names (> 1 KiB) then a sibling object reusing one of them
+						w := wideObject(r, 2+r.IntN(62), true, -1, false)
+						var first string
+						fmt.Sscanf(string(w[1:]), "%q", &first)
+						text = []byte(fmt.Sprintf(`[%s,{%q:1,"z":{%q:2}},%s]`, w, first, first, w))
 					case 3: // integers with 16..19 digits
 						text = []byte(fmt.Sprintf(`[%d,%d,-%d]`, r.Uint64()>>uint(r.IntN(8)), 9007199254740992+uint64(r.IntN(1000)), r.Uint64()>>1))
 					}
